@@ -60,6 +60,28 @@ NA = {
 
 PENDING = {}
 
+PIPE = 'deterministic simulation of the whole run pipeline in one process (real load_data, run, chain driver, trace writer, summaries) with simulated clock, chain executor and trace file; seeded search over inputs, options, clock scripts and chain schedules; oracle over the recorded history'
+CHECKS.update({
+    "C13": dict(
+        level="exploration",
+        technique="deterministic simulation at the generator seam: scripted auxiliary / Bernoulli / gamma outcomes, parameters of the three draws recorded and compared with the Escobar-West reference; run-loop K, n, alpha flow observed in simulated runs",
+        text="~24 000 seeded (a, b, alpha, K, n) tuples with scripted eta (quantiles, 1e-300, 1-1e-12), both mixture components and scripted gamma values: Beta parameters, mixing probability, gamma shape and rate must equal the statement's (1e-12 relative); the statement's distributions are verified once by quadrature to leave p(alpha|K,n) invariant; in simulated runs every update's K, n, old and new value are compared with the current tree (outliers excluded) and the prior object.",
+        note="Trusts scipy to draw from the distributions whose parameters it forwards to the generator. K = 0 (all outliers) is exercised for absence of failure only.",
+        ref="4 (C13)"),
+    "C15": dict(
+        level="exploration",
+        technique="(a) seeded edit histories with restore-from-image faults and twin execution; (b) " + PIPE,
+        text="(a) thousands of histories with restores (dict, pickle, gzip stream, copy, TreeHolder) at arbitrary steps incl. trees with index holes and outlier-only trees: restored tree equals the original in clades, outliers, labels, per-clone vectors, densities, and stays equal under all later edits. (b) hundreds of simulated runs with scheduler-chosen time-limit expiry: entries restore to well-formed complete trees, log_p_one recomputed under the recorded alpha matches, first entry is the post-burn-in tree, iteration labels are exactly the multiples of thin among the executed iterations.",
+        note="After later edits node names of twin and restored tree may differ (relabel order follows edge insertion order); names are compared at the round trip only. Which iteration the time limit stops at is observed, not prescribed.",
+        ref="4 (C15)"),
+    "C19": dict(
+        level="exploration",
+        technique=PIPE,
+        text="1600 (thorough 60 000) simulated runs over generated input tables (1-8 mutations, 1-3 samples, clustered or not, identical and zero-depth rows) with options drawn boundary-biased from what the CLI accepts (1 particle, threshold 0/1, outlier probability up to 1.0, subtree probability 1, 1 iteration, chains 1-3), a quarter through the click command: no exception may escape, every entry is a well-formed tree over all data with finite log_p_one.",
+        note="Cost cap per run keeps runs short, so large iterations x particles x data products are not reached. Chains run in-process under the simulated executor.",
+        ref="4 (C19)"),
+})
+
 ALL = ["C%02d" % i for i in range(1, 21)]
 
 
